@@ -517,7 +517,7 @@ with vk (d : nat) (L1 : vars) (st st' : stmt) {struct d} : option vars :=
     | SAssign p e, SAssign p' e' =>
         if expr_eqb e e' && pat_scrub_ok L1 p p' then Some (vdiff L1 (pvars p') ++ efv [] e) else None
     | SIndexAssign x idx e, SIndexAssign x' idx' e' =>
-        if String.eqb x x' && vexprs no_leaf [] idx idx' && expr_eqb e e'
+        if String.eqb x x' && vexprs no_leaf no_kb [] idx idx' && expr_eqb e e'
         then Some (x :: flat_map (efv []) idx ++ efv [] e ++ L1) else None
     | SIf1 c body, SIf1 c' body' =>
         if expr_eqb c c' then
